@@ -770,8 +770,19 @@ func executePlannedSelection(eCtx *executionContext, sp *selectionPlan, source i
 // coercion.
 func resolvePlannedField(eCtx *executionContext, parentType *Object, source interface{}, fp *fieldPlan, path *ResponsePath) (result interface{}, ok bool) {
 	var returnType Output
+	var resolveFieldFinishFn resolveFieldFinishFuncHandler
 	defer func() {
 		if r := recover(); r != nil {
+			if resolveFieldFinishFn != nil {
+				// the resolver panicked: its resolve phase is still finished
+				perr, isErr := r.(error)
+				if !isErr {
+					perr = fmt.Errorf("%v", r)
+				}
+				fn := resolveFieldFinishFn
+				resolveFieldFinishFn = nil
+				eCtx.Errors = append(eCtx.Errors, fn(nil, perr)...)
+			}
 			// A failed field contributes null, never the value the
 			// resolver returned next to its error.
 			result = nil
@@ -820,7 +831,6 @@ func resolvePlannedField(eCtx *executionContext, parentType *Object, source inte
 	// Extensions allocate a per-field map + closure even when none are
 	// registered. Skip entirely on the common no-extensions schema —
 	// saves ~22% of allocs per resolved field on hot paths.
-	var resolveFieldFinishFn resolveFieldFinishFuncHandler
 	if len(eCtx.Schema.extensions) > 0 {
 		var extErrs []gqlerrors.FormattedError
 		extErrs, resolveFieldFinishFn = handleExtensionsResolveFieldDidStart(eCtx.Schema.extensions, eCtx, &info)
@@ -838,7 +848,9 @@ func resolvePlannedField(eCtx *executionContext, parentType *Object, source inte
 	})
 
 	if resolveFieldFinishFn != nil {
-		extErrs := resolveFieldFinishFn(result, resolveFnError)
+		fn := resolveFieldFinishFn
+		resolveFieldFinishFn = nil
+		extErrs := fn(result, resolveFnError)
 		if len(extErrs) != 0 {
 			eCtx.Errors = append(eCtx.Errors, extErrs...)
 		}
